@@ -393,10 +393,10 @@ pub fn run_history_opt(rng: &mut Rng, init: Init, nunits: usize, oneshot: bool, 
     };
     let mut runner = if oneshot {
         let stream = stream0;
-        Runner { hub: hub.clone(), stream, handle: None, ctls: vec![], replies: vec![], flag, ctl_flag: Arc::new(Flag(AtomicBool::new(false))), strict: false, fresh: false, need_poll: true, ended: false, polls: 0, stalled_wakeups: 0, contend: None, storage: None, app_set: None, contended: 0, crash_at: None, shared: None }
+        Runner { hub: hub.clone(), stream, handle: None, ctls: vec![], replies: vec![], flag, ctl_flag: Arc::new(Flag(AtomicBool::new(false))), strict: false, fresh: false, need_poll: true, next_boundary: 0, ended: false, polls: 0, stalled_wakeups: 0, contend: None, storage: None, app_set: None, contended: 0, crash_at: None, shared: None }
     } else {
         let (handle, stream) = (handle0.unwrap(), stream0);
-        Runner { hub: hub.clone(), stream, handle: Some(handle), ctls: vec![], replies: vec![], flag, ctl_flag: Arc::new(Flag(AtomicBool::new(false))), strict: false, fresh: false, need_poll: true, ended: false, polls: 0, stalled_wakeups: 0, contend: None, storage: None, app_set: None, contended: 0, crash_at: None, shared: None }
+        Runner { hub: hub.clone(), stream, handle: Some(handle), ctls: vec![], replies: vec![], flag, ctl_flag: Arc::new(Flag(AtomicBool::new(false))), strict: false, fresh: false, need_poll: true, next_boundary: 0, ended: false, polls: 0, stalled_wakeups: 0, contend: None, storage: None, app_set: None, contended: 0, crash_at: None, shared: None }
     };
 
     runner.crash_at = crash_at;
@@ -862,7 +862,7 @@ pub fn run_ctl(o: &Opts, rng: &mut Rng) -> Sink {
                 envs.push(e);
             }
             { let mut h = hub.lock().unwrap(); h.units = envs.iter().skip(1).cloned().collect(); h.env = envs[0].clone(); }
-            let mut runner = Runner { hub: hub.clone(), stream: Box::pin(stream), handle: Some(handle), ctls: vec![], replies: vec![], flag, ctl_flag: Arc::new(Flag(AtomicBool::new(false))), strict: false, fresh: false, need_poll: true, ended: false, polls: 0, stalled_wakeups: 0, contend: None, storage: None, app_set: None, contended: 0, crash_at: None, shared: None };
+            let mut runner = Runner { hub: hub.clone(), stream: Box::pin(stream), handle: Some(handle), ctls: vec![], replies: vec![], flag, ctl_flag: Arc::new(Flag(AtomicBool::new(false))), strict: false, fresh: false, need_poll: true, next_boundary: 0, ended: false, polls: 0, stalled_wakeups: 0, contend: None, storage: None, app_set: None, contended: 0, crash_at: None, shared: None };
             if kind == 3 {
                 // a sequence of operations on the channel, against the channel model (Omaha/Chan.lean): requests, environment
                 // moves, runs of the machine to quiescence, the handles dropped, the machine dropped; after every operation
